@@ -754,7 +754,8 @@ func (f *Frame) applyContract(in ssa.Instruction, ct *Contract, fn *ssa.Function
 					panic(specError{fmt.Sprintf("%s: %v", a.Src, err)})
 				}
 				for _, t := range ts {
-					x.frameCheck(st, t.heap, t.ref, g, where)
+					// a target reached through a nil pointer denotes nothing (writing through it would panic)
+					x.frameCheck(st, t.heap, t.ref, and(g, "(not (= "+t.ref+" 0))"), where)
 					srt := c.heapSort[t.heap]
 					inner := strings.TrimSuffix(strings.TrimPrefix(srt, "(Array Int "), ")")
 					nv := c.freshConst("asg", inner)
@@ -766,7 +767,7 @@ func (f *Frame) applyContract(in ssa.Instruction, ct *Contract, fn *ssa.Function
 							c.assert("(forall ((k! " + c.heapKeyS[t.heap] + ")) (! " + w + " :pattern ((select " + nv + " k!))))")
 						}
 					}
-					st.set(t.heap, sto(st.get(t.heap), t.ref, nv))
+					st.set(t.heap, ite("(= "+t.ref+" 0)", st.get(t.heap), sto(st.get(t.heap), t.ref, nv)))
 				}
 			}
 		}
@@ -808,13 +809,31 @@ func (f *Frame) applyContract(in ssa.Instruction, ct *Contract, fn *ssa.Function
 			if !ok {
 				panic(specError{fmt.Sprintf("%s: unknown ghost variable %s", ct.Src, gname)})
 			}
+			srt = x.resolveSort(srt)
 			h := c.ghostVar(gname, srt)
 			st.heap[h] = c.freshConst("g:"+gname, srt)
 		}
 	}
 	e := mk(st, results)
+	e.ghostSets(ct, st, g)
+	e = mk(st, results)
 	for _, en := range ct.Ensures {
-		c.assume(g, e.boolClause(en))
+		// ghost parameters were arbitrary when the callee was verified: the clause holds for all of them
+		var bound []string
+		ee := e
+		for _, gp := range ct.GhostParams {
+			if regexp.MustCompile(`\b` + regexp.QuoteMeta(gp[0]) + `\b`).MatchString(en.Text) {
+				bn := qsym(c.freshName("gp_" + gp[0]))
+				ee = ee.bind(gp[0], specVar{sv: tv(bn), sort: gp[1]})
+				bound = append(bound, "("+bn+" "+gp[1]+")")
+			}
+		}
+		t := ee.boolClause(en)
+		if len(bound) > 0 {
+			c.quant = true
+			t = "(forall (" + strings.Join(bound, " ") + ") " + t + ")"
+		}
+		c.assume(g, t)
 	}
 	if a := ct.Flags["alloc"]; a != "" {
 		ex, err := parseExpr(a)
